@@ -15,6 +15,8 @@ HEADER = ('From Coq Require Import List ZArith NArith.\n'
           'From PC Require Import Base.Atoms Base.Xml Model.SchemaSyntax Model.Schema Model.Bookkeeping Check.C04.\n'
           'Import ListNotations.\n')
 
+HEADER_M = HEADER.replace('Check.C04.', 'Model.EmitDoc Check.C04.')
+
 SHIPPED = ['duck_triangles.dae', 'duck_polylist.dae', 'trifans.dae', 'tristrips.dae', 'cube_tristrips.dae',
            'empty_triangles.dae', 'empty_triangles_with_multiple_ns.dae']
 SEM_ORDER = ['VERTEX', 'NORMAL', 'TEXCOORD', 'TEXBINORMAL', 'TEXTANGENT', 'COLOR', 'TANGENT', 'BINORMAL']
@@ -664,6 +666,187 @@ def model_cases(recipe, data):
     return scases, pcases
 
 
+# --------------------------------------------------------------------------- the whole-writer model (Model/EmitDoc.v)
+
+def _fnum(v):
+    return repr(float(v))
+
+
+class DocModel:
+    """Encodes the user content of a pure from-scratch recipe as a Coq term of type EmitDoc.doc.
+    Numbers are formatted with the runtime (repr of a Python float; '%.7g' for source data), free
+    text is tokenised like the written file; the defaults the constructors apply (transparency,
+    colour padding, name = id, surface format) are applied here as the code documents them."""
+
+    def __init__(self, enc):
+        self.enc = enc
+
+    def T(self, text):
+        return self.enc.toks(text)[6:-1]
+
+    def OT(self, text):
+        return 'None' if text is None else '(Some %s)' % self.T(str(text))
+
+    def nums(self, vals):
+        return self.T(' '.join(_fnum(v) for v in vals))
+
+    def onum(self, v):
+        return 'None' if v is None else '(Some %s)' % self.nums([v])
+
+    def av(self, s):
+        return self.enc.aval(s)
+
+    def at(self, s):
+        return cN(self.enc.word(s))
+
+    def asset(self, r, root):
+        a = root.find(q('asset'))
+        cs = []
+        for c in r.get('contributors', []):
+            cs.append('(Contributor %s %s %s %s %s)' % (self.OT(c.get('author')), self.OT(c.get('authoring_tool')), self.OT(c.get('comments')),
+                                                         self.OT(c.get('copyright')), self.OT(c.get('source_data'))))
+        unit = 'None'
+        if r.get('unitname') is not None and r.get('unitmeter') is not None:
+            unit = '(Some (%s, %s))' % (self.av(r['unitname']), self.av(str(r['unitmeter'])))
+        return '(Asset %s %s %s %s %s %s %s %s %s)' % (
+            clist(cs), self.T(a.find(q('created')).text), self.T(a.find(q('modified')).text), self.OT(r.get('keywords')),
+            self.OT(r.get('revision')), self.OT(r.get('subject')), self.OT(r.get('title')), unit, self.T(r.get('upaxis') or 'Y_UP'))
+
+    def camera(self, r):
+        persp = r['kind'] == 'perspective'
+        x, y = (r.get('xfov'), r.get('yfov')) if persp else (r.get('xmag'), r.get('ymag'))
+        return '(Camera %s %s %s %s %s %s %s)' % (self.av(r['id']), core.cbool(persp), self.onum(x), self.onum(y), self.onum(r.get('aspect')),
+                                                  self.nums([r['znear']]), self.nums([r['zfar']]))
+
+    def pval(self, v):
+        if v is None:
+            return 'None'
+        if v[0] == 'color':
+            col = list(v[1])
+            while len(col) < 3:
+                col.append(0.0)
+            while len(col) < 4:
+                col.append(1.0)
+            return '(Some (VColor %s))' % self.nums(col)
+        if v[0] == 'float':
+            return '(Some (VFloat %s))' % self.nums([v[1]])
+        return '(Some (VMap %s %s))' % (self.av(v[1]), self.av(v[2]))
+
+    def effect(self, r):
+        ps = []
+        for p in r.get('params', []):
+            if p['kind'] == 'surface':
+                ps.append('(PSurface %s %s %s)' % (self.av(p['id']), self.T(p['image']), self.T(p.get('format') or 'A8R8G8B8')))
+            else:
+                ps.append('(PSampler %s %s %s %s)' % (self.av(p['id']), self.T(p['surface']), self.OT(p.get('min') or None), self.OT(p.get('mag') or None)))
+        props = dict(r['props'])
+        if props.get('transparency') is None:
+            props['transparency'] = ['float', 0.0 if r.get('opaque') == 'RGB_ZERO' else 1.0]
+        sh = {'phong': 'ShPhong', 'lambert': 'ShLambert', 'blinn': 'ShBlinn', 'constant': 'ShConstant'}[r['shader']]
+        return '(Effect %s %s %s %s %s %s %s)' % (self.av(r['id']), self.av('common'), clist(ps), sh,
+                                                 ' '.join(self.pval(props.get(k)) for k in ALL_PROPS),
+                                                 core.cbool(r.get('opaque') == 'RGB_ZERO'), self.T('1' if r.get('double_sided') else '0'))
+
+    def source(self, s):
+        if s['kind'] == 'float':
+            vals = self.T(' '.join(fmt_float(v) for v in s['data']))
+            arrtag, ptype = 'float_array', 'float'
+        else:
+            vals = self.T(' '.join(s['data']))
+            arrtag, ptype = ('Name_array', 'IDREF') if s['kind'] == 'name' else ('IDREF_array', 'IDREF')
+        return '(SrcM %s %s %s %s %s %s)' % (self.at(s['id']), self.at(s['id'] + '-array'), vals,
+                                            clist([self.at(c) for c in s['comps']]), self.at(arrtag), self.at(ptype))
+
+    def prim(self, p):
+        ins = sorted(p['inputs'], key=lambda i: SEM_ORDER.index(i[1]))
+        cins = clist(['(InpM %s %s %s %s)' % (cZ(i[0]), self.at(i[1]), self.av(i[2]), copt(None if i[3] is None else self.av(str(i[3])))) for i in ins])
+        nind = p['nind']
+        if p['kind'] == 'polygons':
+            streams, pos = [], 0
+            for vc in p['vcounts']:
+                streams.append(p['indices'][pos:pos + vc * nind])
+                pos += vc * nind
+        else:
+            streams = [p['indices']]
+        cidx = clist([clist(['TInt %s' % cZ(v) for v in st]) for st in streams])
+        kind = {'triangles': 'KTriangles', 'lines': 'KLines', 'polygons': 'KPolygons'}.get(p['kind']) or \
+            '(KPolylist %s)' % clist([cZ(v) for v in p['vcounts']])
+        return '(PrimM %s %s %s %s)' % (kind, cins, cidx, copt(None if p['material'] is None else self.av(p['material'])))
+
+    def geometry(self, g):
+        vref = g['pos'] if g['prims'] else g['sources'][0]['id']
+        return '(Geometry %s %s %s %s %s %s %s %s)' % (
+            self.av(g['id']), copt(self.av(g['name']) if g.get('name') else None), self.source(g['sources'][0]),
+            clist([self.source(s) for s in g['sources'][1:]]), self.at(vref + '-vertices'), self.at(vref),
+            clist([self.prim(p) for p in g['prims']]), core.cbool(bool(g.get('double_sided'))))
+
+    def light(self, r):
+        k = {'ambient': 'LAmbient', 'directional': 'LDirectional', 'point': 'LPoint', 'spot': 'LSpot'}[r['kind']]
+        pt = r['kind'] in ('point', 'spot')
+        sp = r['kind'] == 'spot'
+        return '(Light %s %s %s %s %s %s %s %s)' % (self.av(r['id']), k, self.nums(r['color']),
+                                                   self.onum(r.get('catt') if pt else None), self.onum(r.get('latt') if pt else None),
+                                                   self.onum(r.get('qatt') if pt else None), self.onum(r.get('fang') if sp else None),
+                                                   self.onum(r.get('fexp') if sp else None))
+
+    def transform(self, t):
+        k = {'translate': 'TTranslate', 'rotate': 'TRotate', 'scale': 'TScale', 'matrix': 'TMatrix', 'lookat': 'TLookat'}[t[0]]
+        if t[0] == 'matrix':
+            vals = t[1]
+        elif t[0] == 'lookat':
+            vals = list(t[1]) + list(t[2]) + list(t[3])
+        else:
+            vals = t[1:]
+        return '(%s, %s)' % (k, self.nums(vals))
+
+    def matnode(self, m):
+        ins = clist(['(Bvi %s %s %s)' % (self.av(i[0]), self.av(i[1]), copt(None if i[2] is None else self.av(str(i[2])))) for i in m.get('inputs', [])])
+        return '(MatNode %s %s %s)' % (self.av(m['symbol']), self.at(m['target']), ins)
+
+    def child(self, c):
+        k = c[0]
+        if k == 'camera':
+            return '(SCamera %s)' % self.at(c[1])
+        if k == 'geometry':
+            return '(SGeometry %s %s)' % (self.at(c[1]), clist([self.matnode(m) for m in c[2]]))
+        if k == 'light':
+            return '(SLight %s)' % self.at(c[1])
+        if k == 'instance_node':
+            return '(SInst %s)' % self.at(c[1])
+        if k == 'node':
+            return self.node(c[1])
+        return 'SExtra'
+
+    def node(self, n):
+        return '(SNode %s %s %s %s)' % (self.av(n['id']), self.av(n['name'] if n.get('name') is not None else n['id']),
+                                        clist([self.transform(t) for t in n.get('transforms', [])]),
+                                        clist([self.child(c) for c in n.get('children', [])]))
+
+    def doc(self, content, root):
+        for w in ('GOOGLEEARTH', 'MAX3D', 'POSITION'):
+            self.enc.word(w)
+        scenes = content.get('scenes', [])
+        cs = clist(['(VScene %s %s %s)' % (self.av(s['id']), self.node(s['nodes'][0]), clist([self.node(n) for n in s['nodes'][1:]])) for s in scenes])
+        sc = 'None' if content.get('scene') is None else '(Some %s)' % self.at(scenes[content['scene']]['id'])
+        return '(Doc %s %s %s %s %s %s %s %s %s %s)' % (
+            self.asset(content.get('asset', {}), root),
+            clist([self.camera(c) for c in content.get('cameras', [])]),
+            clist([self.effect(e) for e in content.get('effects', [])]),
+            clist([self.geometry(g) for g in content.get('geometries', [])]),
+            clist(['(Image %s %s)' % (self.av(i['id']), self.T(i['path'])) for i in content.get('images', [])]),
+            clist([self.light(x) for x in content.get('lights', [])]),
+            clist(['(Material %s %s %s)' % (self.av(m['id']), self.av(m['name']), self.at(m['effect'])) for m in content.get('materials', [])]),
+            clist([self.node(n) for n in content.get('nodes', [])]), cs, sc)
+
+
+def c_mcase(recipe, data):
+    enc = c04enc.Enc04()
+    root = ET.fromstring(data)
+    term = enc.element(root)
+    d = DocModel(enc).doc(recipe['ops'][0][1], root)
+    return ctuple(enc.lex_table(), term, d)
+
+
 # --------------------------------------------------------------------------- oracle
 
 ERR_RE = re.compile(r"Element '(?:\{[^}]*\})?([^']+)'(?:, attribute '(?:\{[^}]*\})?([^']+)')?: (.*)")
@@ -815,6 +998,13 @@ def run(ctx):
             s, p = model_cases(r, d)
             sterms += s
             pterms += p
+    mterms, mrecipes = [], []
+    for ri, di, d, scratch in docs:
+        r = recipes[ri]
+        if r.get('pure') and r['kind'] == 'scratch' and di == len(results[ri]['docs']) - 1:
+            mterms.append(c_mcase(r, d))
+            mrecipes.append(ri)
+    mbad, merr = core.coq_eval_cases(ctx, HEADER_M, 'C04.mcase', mterms, 'C04.mmismatches', chunk=12, label='model')
     sbad, serr = core.coq_eval_cases(ctx, HEADER, 'C04.scase', sterms, 'C04.smismatches', chunk=100, label='srcs')
     pbad, perr = core.coq_eval_cases(ctx, HEADER, 'C04.pcase', pterms, 'C04.pmismatches', chunk=100, label='prims')
 
@@ -889,6 +1079,9 @@ def run(ctx):
         mismatches.append({'kind': 'written-document', 'recipe_index': ri, 'doc_index': di, 'input': {'recipe': recipes[ri], 'doc_index': di},
                            'oracle': [f['signature'] for f in fs],
                            'explained_by_known': bool(fs) and all(f['signature'] in known for f in fs)})
+    for i in mbad[:5]:
+        mismatches.append({'kind': 'whole-writer-model (wf_user of the encoded content, emit d = written tree)', 'recipe_index': mrecipes[i],
+                           'input': {'recipe': recipes[mrecipes[i]], 'doc_index': 0}, 'explained_by_known': False})
     for i in sbad[:5]:
         mismatches.append({'kind': 'emit-model-source', 'case_index': i, 'explained_by_known': False})
     for i in pbad[:5]:
@@ -897,7 +1090,7 @@ def run(ctx):
     seen = set()
     dist = {'recipes': len(recipes), 'scratch': nscratch, 'edit_histories': len(recipes) - nscratch - ncorpus, 'corpus': ncorpus,
             'recipes_that_raised': len(raised), 'raised_examples': raised[:3],
-            'documents': len(docs), 'source_model_cases': len(sterms), 'primitive_model_cases': len(pterms),
+            'documents': len(docs), 'whole_writer_model_cases': len(mterms), 'source_model_cases': len(sterms), 'primitive_model_cases': len(pterms),
             'xmllint': H.xl.exe if have_xl else 'absent', 'cross_validation': xstats, 'bases': valid_bases,
             'ops': {}, 'prim_kinds': {}, 'shaders': {}, 'lights': {}, 'cameras': {}}
     for r in recipes:
@@ -918,7 +1111,7 @@ def run(ctx):
         if len(d) > 1500:
             seen.add(core.canon_hash([recipes[ri]['ops'], di]))
     corr = {
-        'evaluations': len(docs) + len(sterms) + len(pterms),
+        'evaluations': len(docs) + len(sterms) + len(pterms) + len(mterms),
         'distinct_nontrivial': len(seen),
         'rule': 'a written document counts as non-trivial when it is larger than 1500 bytes (more than the empty skeleton); '
                 'distinct = different (recipe, write index)',
@@ -926,7 +1119,7 @@ def run(ctx):
                      'bookkeeping_failures': fl} for (ri, di, d, _), xr, fl in list(zip(docs, xres, pyfails))[:3]],
         'distribution': dist,
         'mismatches': mismatches,
-        'errors': derr + serr + perr,
+        'errors': derr + serr + perr + merr,
     }
 
     def search(mm):
